@@ -17,7 +17,7 @@ Record mhead := { h_kind : ekind; h_ent : entity; h_room : option uid; h_date : 
                   h_has_node : bool;         (* node.is_some(): false = "reference only" *)
                   h_too_big : bool;          (* bincode size > max_node_size (computed by the caller) *)
                   h_old : option oldn;
-                  h_edge_dels : N }.         (* number of references the mutation removes *)
+                  h_edge_dels : list key }.  (* authors of the references the mutation removes *)
 Inductive ment := MEnt (h : mhead) (subs : list ment).
 
 Definition find_room (rooms : list room) (id : uid) : option room :=
@@ -27,7 +27,11 @@ Definition needed (same_user : bool) : right_t := if same_user then MutateSelf e
 
 (* the head of validate_entity_mutation: None = continue with the sub-entities,
    Some v = return v at once. *)
-Definition check_head (me : key) (rooms : list room) (h : mhead) : option verdict :=
+(* removing a reference created by someone else needs the all-rows right, evaluated at `now` *)
+Definition dels_ok (me : key) (now : Z) (r : room) (h : mhead) : bool :=
+  forallb (fun a => N.eqb a me || can r me (h_ent h) now MutateAll) (h_edge_dels h).
+
+Definition check_head (me : key) (now : Z) (rooms : list room) (h : mhead) : option verdict :=
   match h_kind h with
   | KAuthLike => Some VInvalidAuthMutation
   | KNormal =>
@@ -57,7 +61,8 @@ Definition check_head (me : key) (rooms : list room) (h : mhead) : option verdic
                     | None => Some VUnknownRoom
                     | Some false => Some VRejected
                     | Some true =>
-                        if can r me (h_ent h) (h_date h) (needed same) then None
+                        if can r me (h_ent h) (h_date h) (needed same)
+                        then (if dels_ok me now r h then None else Some VRejected)
                         else Some VRejected
                     end
                 end
@@ -68,30 +73,32 @@ Definition check_head (me : key) (rooms : list room) (h : mhead) : option verdic
             | Some rid =>
                 match find_room rooms rid with
                 | None => Some VUnknownRoom
-                | Some r => if can r me (h_ent h) (h_date h) MutateSelf then None else Some VRejected
+                | Some r => if can r me (h_ent h) (h_date h) MutateSelf
+                            then (if dels_ok me now r h then None else Some VRejected)
+                            else Some VRejected
                 end
             end
         end
   end.
 
-Fixpoint validate_entity (me : key) (rooms : list room) (m : ment) : verdict :=
+Fixpoint validate_entity (me : key) (now : Z) (rooms : list room) (m : ment) : verdict :=
   match m with
   | MEnt h subs =>
-      match check_head me rooms h with
+      match check_head me now rooms h with
       | Some v => v
       | None =>
           (fix go (l : list ment) : verdict :=
              match l with
              | [] => VOk
-             | s :: tl => match validate_entity me rooms s with VOk => go tl | v => v end
+             | s :: tl => match validate_entity me now rooms s with VOk => go tl | v => v end
              end) subs
       end
   end.
 
-Fixpoint validate_all (me : key) (rooms : list room) (ms : list ment) : verdict :=
+Fixpoint validate_all (me : key) (now : Z) (rooms : list room) (ms : list ment) : verdict :=
   match ms with
   | [] => VOk
-  | m :: tl => match validate_entity me rooms m with VOk => validate_all me rooms tl | v => v end
+  | m :: tl => match validate_entity me now rooms m with VOk => validate_all me now rooms tl | v => v end
   end.
 
 (* every row InsertEntity::write writes: the whole tree, also below a "reference" head *)
